@@ -358,3 +358,268 @@ META = {
     'not_decided': ["meshes and histories beyond the generated ones"],
     'trusted_base': ['h5py / HDF5 as storage'],
 }
+
+
+# ---------------------------------------------------------------------------------------------
+# P: roll-back of failed exports, for every crash point, over an abstract HDF5 file (pv/ghost.py)
+# ---------------------------------------------------------------------------------------------
+import z3                                     # noqa: E402
+from pv.api import obligation                 # noqa: E402
+
+EX = 'pylife/vmap/vmap_export.py::VMAPExport'
+LAYOUT = {'VMAP': {'GEOMETRY': {}, 'VARIABLES': {}, 'SYSTEM': {}, 'MATERIAL': {}}}
+
+
+def ghost_run(o, method, make_args, layout=LAYOUT):
+    """all paths of VMAPExport.<method>(...) over a fresh abstract file and arbitrary (Havoc) mesh / numpy / pandas objects"""
+    from pv.ghost import World, GhostFile, HavocNS, H5NS, Havoc
+    from pv.interp import PyRaise, Obj
+
+    def thunk():
+        world = World(o.I)
+        gf = GhostFile(world, layout)
+        o.I.libs.update({'numpy': HavocNS(world, 'np'), 'pandas': HavocNS(world, 'pd'), 'h5py': H5NS(world, gf),
+                         'os': HavocNS(world, 'os'), 'datetime': HavocNS(world, 'datetime'), 'getpass': HavocNS(world, 'getpass')})
+        ex = Obj(o.cls(EX))
+        ex.fields['_file_name'] = 'file.vmap'
+        ex.fields['_dimension'] = 2
+        args, kwargs = make_args(world, Havoc)
+        try:
+            r = o.I.call(o.method(ex, method), args, kwargs)
+            outcome = ('return', r is ex)
+        except PyRaise as e:
+            outcome = ('raise', e.exc_type)
+        return outcome, gf, world
+    ps = o.paths(thunk, max_paths=20000)
+    return [p for p in ps if p.kind == 'return']
+
+
+def _b(x):
+    return z3.BoolVal(x) if isinstance(x, bool) else x
+
+
+def _all(paths_goals):
+    return z3.And(*[z3.Implies(z3.And(*[_b(c) for c in pc]) if pc else z3.BoolVal(True), _b(g)) for pc, g in paths_goals]) if paths_goals else z3.BoolVal(True)
+
+
+@obligation('C20', 'add_geometry.rollback', functions=[EX + '.add_geometry', EX + '._create_geometry_groups', EX + '._create_points_datasets', EX + '._create_elements_dataset',
+                                                        EX + '._fail_if_ids_exceed_int32', EX + '._create_group_with_attributes'])
+def add_geometry_rollback(o):
+    """VMAPExport.add_geometry over an abstract HDF5 file, an arbitrary mesh object and arbitrary numpy / pandas: on EVERY path that raises - whichever library call fails,
+    at whichever point - the geometry group's presence is what it was before the call (absent if it was absent, the untouched old group if it existed), and nothing
+    outside /VMAP/GEOMETRY/<name> is written; on every returning path the group is new and complete"""
+    G = '/VMAP/GEOMETRY/G'
+    ps = ghost_run(o, 'add_geometry', lambda world, Havoc: (['G', Havoc(world, 'mesh')], {}))
+    raises = [p for p in ps if p.result[0][0] == 'raise']
+    returns = [p for p in ps if p.result[0][0] == 'return']
+    unchanged, untouched, frame, complete, fresh_only = [], [], [], [], []
+    for p in ps:
+        (kind, info), gf, world = p.result
+        p0 = gf.initial.get(G)
+        e = gf.lookup(G)
+        outside = [l for l in gf.log if not (l[1] == G or l[1].startswith(G + '/'))]
+        frame.append((p.pc, len(outside) == 0))
+        if kind == 'raise':
+            if p0 is None:
+                unchanged.append((p.pc, e is None))        # the file was not even looked at
+            else:
+                unchanged.append((p.pc, _b(e.present) == p0))
+                # if it is (still) there it is the old object, and no logged write touches it
+                old_ok = (e.node is None) or (e.node.origin == 'old' and not [l for l in gf.log if l[1].startswith(G) and l[0] != 'delete' and l[3] == 'old'])
+                untouched.append((p.pc, old_ok))
+        else:
+            node = e.node if e is not None else None
+            ok = bool(node is not None and e.present is True and node.origin == 'new' and info
+                      and all(k in node.children and node.children[k].present is True for k in ('POINTS', 'ELEMENTS', 'GEOMETRYSETS'))
+                      and all(c.present is True and not c.node.partial for grp in ('POINTS', 'ELEMENTS') for c in node.children[grp].node.children.values()))
+            complete.append((p.pc, ok))
+            fresh_only.append((p.pc, z3.Not(p0) if p0 is not None else False))
+    o.prove('the exploration has raising and returning paths', z3.BoolVal(len(raises) >= 10 and len(returns) >= 1))
+    o.prove('every raising path: presence of the geometry group unchanged', _all(unchanged), replay=rollback_replay('geometry'))
+    o.prove('every raising path: a pre-existing geometry group is the old, unmodified one', _all(untouched), replay=rollback_replay('geometry'))
+    o.prove('every path: nothing outside /VMAP/GEOMETRY/<name> is written', _all(frame))
+    o.prove('every returning path: the geometry group is new and complete (POINTS, ELEMENTS, GEOMETRYSETS; no partial dataset) and self is returned', _all(complete))
+    o.prove('every returning path: the name was free before', _all(fresh_only))
+    o.note(f"{len(ps)} paths explored: {len(raises)} raising (one per crash point and exception kind), {len(returns)} returning")
+    o.trusted("abstract HDF5 file (pv/ghost.py): h5py item access / create_group / create_dataset / del / attrs behave as modelled; del removes the whole subtree atomically")
+    o.trusted("exceptions are of class Exception (KeyboardInterrupt / SystemExit inside the export are not rolled back)")
+
+
+# ---------------------------------------------------------------------------------------------
+# fault injection on the real h5py (replay of the roll-back obligations, and a bounded check of its own)
+# ---------------------------------------------------------------------------------------------
+class Injected(Exception):
+    pass
+
+
+class Injector:
+    """makes the k-th h5py mutation of the real library fail ('before': without effect, 'after': after it has been carried out)"""
+    def __init__(self, k, when='before'):
+        self.k, self.when, self.count, self.fired = k, when, 0, None
+
+    def __enter__(self):
+        import h5py
+        self.saved = []
+        targets = [(h5py.Group, 'create_group'), (h5py.Group, 'create_dataset'), (h5py.AttributeManager, 'create'), (h5py.AttributeManager, '__setitem__')]
+        for cls, name in targets:
+            orig = getattr(cls, name)
+            self.saved.append((cls, name, orig))
+            setattr(cls, name, self._wrap(orig, f'{cls.__name__}.{name}'))
+        return self
+
+    def _wrap(self, orig, label):
+        inj = self
+
+        def wrapper(obj, *a, **k):
+            if getattr(inj, 'inside', False):
+                return orig(obj, *a, **k)
+            if inj.when == 'after' and not label.endswith('create_dataset'):
+                return orig(obj, *a, **k)          # only writing a dataset can fail half way (dataset created, data not written)
+            inj.count += 1
+            mine = inj.count == inj.k
+            if mine and inj.when == 'before':
+                inj.fired = f'{label}({a[0] if a else ""}) fails before it has any effect'
+                raise Injected(inj.fired)
+            inj.inside = True
+            try:
+                r = orig(obj, *a, **k)
+            finally:
+                inj.inside = False
+            if mine:
+                inj.fired = f'{label}({a[0] if a else ""}) fails after it was carried out'
+                raise Injected(inj.fired)
+            return r
+        return wrapper
+
+    def __exit__(self, *exc):
+        for cls, name, orig in self.saved:
+            setattr(cls, name, orig)
+        return False
+
+
+def fault_sweep(kind, dim=3, stop_at_first=True):
+    """real VMAPExport on a real file: inject a failure at every h5py mutation of add_geometry / add_variable in turn; returns the list of injections after
+    which the file holds a partial geometry / variable (or the MYSIZE bookkeeping is off), and the number of injection points"""
+    import warnings
+    import numpy as np
+    import pylife.vmap as vmap
+    warnings.simplefilter('ignore')
+    rng = np.random.default_rng(5)
+    good = add_fields(rng, make_mesh(rng, dim, [ELEMENT_NODES[dim][0], ELEMENT_NODES[dim][1]], 4, ids='gapped'))
+    bad, points = [], 0
+    for when in ('before', 'after'):
+        k = 0
+        while True:
+            k += 1
+            path = scratch_file()
+            try:
+                ex = vmap.VMAPExport(path)
+                ex.add_geometry('first', good)
+                ex.add_variable('STATE-1', 'first', 'DISPLACEMENT', good)
+                before = snapshot(path)
+                with Injector(k, when) as inj:
+                    try:
+                        if kind == 'geometry':
+                            ex.add_geometry('second', good)
+                        else:
+                            ex.add_variable('STATE-1', 'first', 'STRESS_CAUCHY', good)
+                        raised = None
+                    except Exception as e:   # noqa
+                        raised = e
+                if inj.fired is None:
+                    break                       # fewer than k mutations: sweep complete
+                points += 1
+                after = snapshot(path)
+                if raised is None:
+                    bad.append({'fail_at': k, 'when': when, 'operation': inj.fired, 'problem': 'the injected failure was swallowed'})
+                elif after != before:
+                    bad.append({'fail_at': k, 'when': when, 'operation': inj.fired, 'problem': f'file content after the failed call: geometries {sorted(after[0])}, variables {sorted(after[1])}, MYSIZE consistent {after[2]}; before: {sorted(before[0])}, {sorted(before[1])}'})
+                if bad and stop_at_first:
+                    return bad, points
+            finally:
+                if os.path.exists(path):
+                    os.remove(path)
+    return bad, points
+
+
+def rollback_replay(kind):
+    def replay(item, model):
+        from pv import extbuild   # noqa  (the real package is importable in the worker)
+        bad, points = fault_sweep(kind)
+        if bad:
+            return {'reproduced': True, 'inputs': bad[0], 'note': f'fault injection on the real h5py ({points} injection points tried): ' + bad[0]['problem']}
+        return {'reproduced': False, 'reason': f'no injection of a failure into the {points} h5py mutations of the real call leaves a partial object'}
+    return replay
+
+
+@bounded('C20', 'fault-injection', shards=2)
+def b_fault_injection(ctx):
+    """real add_geometry / add_variable on a real file with a failure injected at every h5py mutation (create_group, create_dataset, attrs.create, attrs[...] = ...), once
+    before the operation has an effect and, for create_dataset, once after the dataset exists: the call raises and the file content (geometries, variables, MYSIZE bookkeeping) is what it was before"""
+    ctx.bound = "every h5py mutation of one add_geometry and one add_variable call (2D and 3D mixed-type mesh of 4 elements), failure before / after the operation"
+    ctx.rule = "each injection point is one case"
+    ctx.exhaustive = True
+    for idx, (kind, dim) in enumerate([('geometry', 2), ('geometry', 3), ('variable', 2), ('variable', 3)]):
+        if idx % ctx.nshards != ctx.shard:
+            continue
+        bad, points = fault_sweep(kind, dim, stop_at_first=False)
+        for _ in range(points):
+            ctx.case(True)
+        for b in bad:
+            ctx.fail(f'C20:fault-injection:{kind}:partial', f"add_{kind} ({dim}D): {b['operation']}: {b['problem']}", b)
+    ctx.sample({'injection': 'Group.create_dataset(MYCOORDINATES) fails after it was carried out', 'expected': 'VMAPExportError, no geometry "second" in the file'})
+
+
+def _variable_rollback(o, label, variable, extra):
+    S, G = 'STATE-1', 'G'
+    VP = f'/VMAP/VARIABLES/{S}/{G}/{variable}'
+    GP = f'/VMAP/VARIABLES/{S}/{G}'
+    ps = ghost_run(o, 'add_variable', lambda world, Havoc: ([S, G, variable, Havoc(world, 'mesh')], extra(world, Havoc)))
+    raises = [p for p in ps if p.result[0][0] == 'raise']
+    returns = [p for p in ps if p.result[0][0] == 'return']
+    unchanged, size_ok, frame, complete, fresh_only, size_inc = [], [], [], [], [], []
+    for p in ps:
+        (kind, info), gf, world = p.result
+        e = gf.lookup(VP)
+        ge = gf.lookup(GP)
+        p0 = gf.initial.get(VP, False)
+        outside = [l for l in gf.log if not (l[1] == f'/VMAP/VARIABLES/{S}' or l[1].startswith(f'/VMAP/VARIABLES/{S}/'))]
+        frame.append((p.pc, len(outside) == 0))
+        gnode = ge.node if (ge is not None and ge.node is not None) else None
+        size_now = gnode.attrs.values.get('MYSIZE') if gnode is not None else None
+        size_was = (gnode.initial_attrs.get('MYSIZE') if gnode.origin == 'old' else 0) if gnode is not None else None
+        term = lambda v: v.t if hasattr(v, 't') else z3.IntVal(v)   # noqa: E731
+        if kind == 'raise':
+            unchanged.append((p.pc, True if e is None else _b(e.present) == _b(p0)))
+            if e is not None and e.node is not None:
+                unchanged.append((p.pc, e.node.origin == 'old' and not [l for l in gf.log if l[1].startswith(VP) and l[0] != 'delete']))
+            if size_now is not None and size_was is not None:
+                size_ok.append((p.pc, term(size_now) == term(size_was)))
+            elif size_now is not None and gnode.origin == 'old':
+                size_ok.append((p.pc, False))      # written without having been read
+        else:
+            node = e.node if e is not None else None
+            ok = bool(node is not None and e.present is True and node.origin == 'new' and info
+                      and all(k in node.children and node.children[k].present is True and not node.children[k].node.partial for k in ('MYGEOMETRYIDS', 'MYVALUES')))
+            complete.append((p.pc, ok))
+            fresh_only.append((p.pc, z3.Not(_b(p0))))
+            size_inc.append((p.pc, term(size_now) == term(size_was) + 1 if (size_now is not None and size_was is not None) else False))
+    rp = rollback_replay('variable')
+    o.prove(f'{label}: the exploration has raising and returning paths', z3.BoolVal(len(raises) >= 10 and len(returns) >= 1))
+    o.prove(f'{label}: every raising path: the variable group is absent if it was absent, the untouched old one if it existed', _all(unchanged), replay=rp)
+    o.prove(f'{label}: every raising path: MYSIZE of the geometry group is what it was (0 for a group created by the call)', _all(size_ok), replay=rp)
+    o.prove(f'{label}: every path: nothing outside /VMAP/VARIABLES/<state> is written', _all(frame))
+    o.prove(f'{label}: every returning path: the variable group is new, holds MYGEOMETRYIDS and MYVALUES completely written, self is returned', _all(complete))
+    o.prove(f'{label}: every returning path: the variable did not exist before and MYSIZE is incremented by one', z3.And(_all(fresh_only), _all(size_inc)))
+    o.note(f"{label}: {len(ps)} paths explored: {len(raises)} raising, {len(returns)} returning")
+
+
+@obligation('C20', 'add_variable.rollback', functions=[EX + '.add_variable', EX + '._fail_if_ids_exceed_int32', EX + '._create_group_with_attributes'])
+def add_variable_rollback(o):
+    """VMAPExport.add_variable over an abstract HDF5 file and arbitrary mesh / numpy / pandas objects, for a known variable (columns and location from the table) and for
+    an unknown one with caller-supplied arbitrary column names and location: on every raising path - whichever operation fails - the variable group is absent (or the
+    untouched old one) and the MYSIZE counter of the geometry's variable group is unchanged; on returning paths the variable is complete and counted once"""
+    _variable_rollback(o, 'known variable', 'STRESS_CAUCHY', lambda world, Havoc: {})
+    _variable_rollback(o, 'caller-supplied columns and location', 'XX', lambda world, Havoc: {'column_names': Havoc(world, 'column_names'), 'location': Havoc(world, 'location')})
+    o.trusted("abstract HDF5 file (pv/ghost.py): h5py item access / create_group / create_dataset / del / attrs behave as modelled; del removes the whole subtree atomically")
+    o.trusted("exceptions are of class Exception (KeyboardInterrupt / SystemExit inside the export are not rolled back)")
